@@ -663,6 +663,23 @@ namespace
                         }
                         probe("ring_copied");
                         tr.ev("copy %zu", want.size());
+                        {
+                            // a ring handed over by move: the new owner keeps the elements after the moved-from object has died (and
+                            // after another block of the same size has been allocated, as any program does)
+                            want = m;
+                            auto *src = new igris::ring<T, simalloc::Alloc<T>>(rg);
+                            igris::ring<T, simalloc::Alloc<T>> moved(std::move(*src));
+                            delete src;
+                            igris::unbounded_array<T, simalloc::Alloc<T>> other((size_t)cap + 1);
+                            for (size_t q = 0; q < other.size(); q++) other[q] = val(777, (int)q);
+                            if (moved.avail() != want.size()) violate("C03/move", "a ring move-constructed from a ring holding %zu elements reports %u", want.size(), moved.avail());
+                            for (size_t q = 0; q < want.size(); q++)
+                            {
+                                if (moved.tail() != want[q]) violate("C03/move", "element %zu read from a move-constructed ring (source destroyed) differs from what was written", q);
+                                moved.pop();
+                            }
+                            probe("ring_moved");
+                        }
                         break;
                     }
                     case 14:
@@ -728,6 +745,95 @@ namespace
 
     // ---------------------------------------------------------------- cyclic_buffer + ring_counter
     // ops: [0 push v] [1 index i] [2 counter_inc a] [3 counter_set v] [4 prev i] [5 last no] [6 fixup_pos p] [7 resize n]
+    // ---------------------------------------------------------------- typed ring as a message queue of elements that own memory
+    // The queue has static lifetime (it is never destroyed - igris::ring destroys popped slots again when it dies, so only a
+    // ring that lives for the whole program can hold such elements): push / emplace at the head, tail() + pop() at the tail,
+    // for many laps. ASan watches the elements' heap blocks.
+    struct StringQueueWorld : World
+    {
+        const char *name() const override { return "typed-ring-of-strings-static-lifetime"; }
+        unsigned weight(Tier) const override { return 1; }
+        Plan generate(Rng &r, Tier tier) override
+        {
+            Plan p;
+            int cap = (int)r.range(1, 9);
+            p.cfg = {cap};
+            int n = (int)r.range(6, tier == THOROUGH ? 120 : 50);
+            int phase = 0, left = 0;
+            for (int i = 0; i < n; i++)
+            {
+                if (left == 0) { phase = (int)r.below(3); left = (int)r.range(1, 8); }
+                left--;
+                bool prod = phase == 0 ? r.chance(1, 2) : phase == 1;
+                if (r.chance(1, 25)) p.ops.push_back({3});
+                else if (prod) p.ops.push_back({r.chance(1, 2) ? 0 : 1, (int64_t)r.below(100000)});
+                else p.ops.push_back({2});
+            }
+            return p;
+        }
+        std::string describe(const Plan &p) override { return "queue of strings, capacity " + std::to_string(mod(p.c(0) - 1, 9) + 1) + ", " + std::to_string(p.ops.size()) + " ops"; }
+        static std::string message(int64_t v)
+        {
+            std::string s = "message #" + std::to_string(v) + " ";
+            s.append((size_t)(v % 3 == 0 ? 2 : 24 + (v * 7) % 40), (char)('a' + v % 26)); // short (in-object) and long (heap) strings
+            return s;
+        }
+        Result execute(const Plan &p, Trace &tr) override
+        {
+            Result res;
+            int cap = (int)mod(p.c(0) - 1, 9) + 1;
+            auto *q = new igris::ring<std::string>(cap); // static lifetime: never destroyed
+            std::deque<std::string> m;
+            uint64_t pushed = 0;
+            auto check = [&](const char *where) {
+                if (q->avail() != m.size() || q->room() != (unsigned)cap - m.size() || q->empty() != m.empty())
+                    violate("C03/avail", "%s: queue of strings reports avail=%u room=%u, the reference holds %zu of %d", where, q->avail(), q->room(), m.size(), cap);
+                if ((unsigned)q->head_index() >= q->size() || (unsigned)q->tail_index() >= q->size()) violate("C03/index-range", "%s: head=%d tail=%d size=%u", where, q->head_index(), q->tail_index(), q->size());
+                int idx = q->tail_index();
+                for (auto &e : m)
+                {
+                    if (q->get(idx) != e) violate("C03/typed-content", "%s: a queued string differs from what was pushed: '%s' instead of '%s'", where, q->get(idx).c_str(), e.c_str());
+                    idx = q->fixup_index(idx + 1);
+                }
+                if (!m.empty() && (q->tail() != m.front() || q->last() != m.back())) violate("C03/tail", "%s: tail()/last() differ from the oldest/newest string", where);
+            };
+            for (auto &o : p.ops)
+            {
+                int kind = (int)mod(arg(o, 0), 4);
+                if (kind <= 1)
+                {
+                    if (m.size() == (size_t)cap) { fault("consumer_stall_overrun_attempt"); continue; }
+                    std::string v = message(arg(o, 1));
+                    if (kind == 0) q->push(v);
+                    else q->emplace(v.c_str());
+                    m.push_back(v);
+                    pushed++;
+                    tr.u(v.size());
+                }
+                else if (kind == 2)
+                {
+                    if (m.empty()) { fault("producer_stall_underrun_attempt"); continue; }
+                    if (q->tail() != m.front()) violate("C03/fifo", "the string at the tail is '%s', the oldest pushed one is '%s'", q->tail().c_str(), m.front().c_str());
+                    q->pop();
+                    m.pop_front();
+                    tr.u(0);
+                }
+                else
+                {
+                    q->clear();
+                    m.clear();
+                }
+                check("after op");
+            }
+            q->clear(); // the strings still queued are released; the queue object itself stays (static lifetime)
+            if (pushed > (uint64_t)cap + 1) probe("string_queue_lapped");
+            res.steps = p.ops.size();
+            res.simtime = p.ops.size();
+            res.nontrivial = pushed > (uint64_t)cap + 1;
+            return res;
+        }
+    };
+
     struct CyclicWorld : World
     {
         const char *name() const override { return "cyclic_buffer+ring_counter"; }
@@ -871,7 +977,8 @@ int main(int argc, char **argv)
     Harness h;
     h.property = "C03";
     HugeRingWorld hw;
-    h.worlds = {&cw, &tc, &ti, &cy, &tf, &hw};
+    static StringQueueWorld sq;
+    h.worlds = {&cw, &tc, &ti, &cy, &tf, &hw, &sq};
     h.real = {"igris/datastruct/ring.h", "igris/container/ring.h", "igris/datastruct/ring_counter.h", "igris/container/cyclic_buffer.h",
               "igris/container/unbounded_array.h"};
     h.stub = {"producer / consumer / DMA tasks with stalls (op-level interleaving from the plan)", "SimAlloc memory behind the Alloc parameter and the C ring's buffer",
